@@ -167,6 +167,14 @@ var (
 		Text: "near-ports: writePadding, fmtInteger, fmtSbx, fmtC, pp.fmtInteger, pp.fmtBytes, pp.badVerb, pp.badArgNum, pp.missingArg and the directive parser pp.doFormat (vs doPrintf) equal the building toolchain's fmt statement by statement (alpha-normalised, longest common subsequence) except for the MaxStringLen guards the port added and one tabled difference each"}
 	rFMT7 = &Rule{Name: "FMT.7", Floor: 9, Fn: ruleFMT7,
 		Text: "printArg's type dispatch: each object arm is fmt's arm for the Go type of the object's value applied to that value (Bool through !IsFalsy()), the default arm formats String() as a string, %T/%v are served first from TypeName()/String()"}
+	rJSON6 = &Rule{Name: "JSON.6", Floor: 11, Fn: ruleJSON6,
+		Text: "the decoder's string unquoting (unquote, unquoteBytes, getu4), checkValid, quoteChar and the scanner's reset/eof/push/pop helpers equal the building toolchain's encoding/json statement by statement (alpha-normalised; one tabled difference)"}
+	rSEMI2 = &Rule{Name: "SEMI.2", Floor: 6, Fn: ruleSEMI2,
+		Text: "semicolon insertion across comments: findLineEnd's look-ahead loop can reach its next iteration (every comment on the line is examined), answers true for a //-comment, a newline or EOF, false for another token, and restores the scanner state by defer"}
+	rSCAN1 = &Rule{Name: "SCAN.1", Floor: 8, Fn: ruleSCAN1,
+		Text: "the literal scanners scanEscape, scanRune, scanString, scanRawString and skipWhitespace/switch2-4 equal the building toolchain's go/scanner statement by statement (alpha-normalised)"}
+	rXCH4 = &Rule{Name: "XCH.4", Floor: 2, Fn: ruleXCH4,
+		Text: "Compiled.Set stores the FromInterface conversion of its argument on every path that reports success (no way out between the name lookup and the store except an error return)"}
 	rSEARCH1 = &Rule{Name: "SEARCH.1", Floor: 2, Fn: ruleSEARCH1,
 		Text: "the position→file lookup is `last file with Base <= x`: searchFiles is sort.Search over Base > x minus one (or a clone of its documented sibling searchInts), and both containment tests are Base <= p <= Base+Size"}
 )
@@ -188,7 +196,7 @@ func allProperties() []*Property {
 		{ID: "C04",
 			Decided:    "every explicit panic reachable from the scan/parse/compile entry points is recovered in place, proven unreachable from re-checked premises, or a listed finding; scope switches are exhaustive; the globals slot count is checked; compiler scope/loop stacks are balanced on error paths; parser error positions are token/node start positions.",
 			NotDecided: "termination; implicit run-time panics in general (index, nil, slice bounds); that every reported position lies inside the input.",
-			Rules:      []*Rule{rPANIC1, rPANIC2, rPANIC3, rPANIC4, rNILFIELD, rSCOPE1, rJMP2, rNEWPARSER, rPOSARG, rLIT1}},
+			Rules:      []*Rule{rPANIC1, rPANIC2, rPANIC3, rPANIC4, rNILFIELD, rSCOPE1, rJMP2, rNEWPARSER, rPOSARG, rLIT1, rSCAN1}},
 		{ID: "C05",
 			Decided:    "the structure that turns any ordinary panic of the VM goroutine into a returned error, waits for that goroutine, and releases the lock by defer on every exit.",
 			NotDecided: "which run-time faults a script can provoke; faults recover() cannot catch are only partly covered (thorough).",
@@ -216,11 +224,11 @@ func allProperties() []*Property {
 		{ID: "C15",
 			Decided:    "type-level round trip of FromInterface/ToInterface; typed accessors call the documented conversion; Set/Get/GetAll guards; lock discipline; conversion table agreement.",
 			NotDecided: "the history clause (a variable reads as the last value set) over all call sequences.",
-			Rules:      []*Rule{rXCH, rLOCK, rCONV1, rCLONE1}},
+			Rules:      []*Rule{rXCH, rXCH4, rLOCK, rCONV1, rCLONE1}},
 		{ID: "C11",
 			Decided:    "the three variable families' selector-assignment arms are clones; operand decoding of all Local/Free/Global opcodes agrees with the encoder.",
 			NotDecided: "the metamorphic relation itself (needs executing transformed programs).",
-			Rules:      []*Rule{rFAM1, rLOCALTS, rCODEC3, rSYM1}},
+			Rules:      []*Rule{rFAM1, rLOCALTS, rCODEC3, rSYM1, rTAIL}},
 		{ID: "C13",
 			Decided:    "module bodies are compiled against a fresh builtin-only table; the cycle check dominates and walks the import stack; compile-once ordering at the root cache; import = CONST+CALL; exported values pass OpImmutable; file APIs are confined behind the permission flag.",
 			NotDecided: "termination and the exact success condition over all import graphs as a run-time fact.",
@@ -228,7 +236,7 @@ func allProperties() []*Property {
 		{ID: "C14",
 			Decided:    "sentinel and host errors survive to the caller wrapped with %w; every instruction gets a source position keyed by its own offset, kept consistent through the optimizer; call-site ips are saved before frame switches and looked up innermost first.",
 			NotDecided: "that a reported position lies within the failing statement (depends on per-opcode ip bookkeeping and each program's source map).",
-			Rules:      []*Rule{rERR, rPOS1, rOPT, rSEARCH1}},
+			Rules:      []*Rule{rERR, rPOS1, rOPT, rSEARCH1, rDEDUP1}},
 		{ID: "C16",
 			Decided:    "the VM's tail-call predicate is exactly 'next is RET or POP;RET'; the reuse path grows no frame and overwrites parameter slots directly; the compiler places RET directly after the documented tail positions.",
 			NotDecided: "that deep recursion terminates with the right value.",
@@ -240,7 +248,7 @@ func allProperties() []*Property {
 		{ID: "C18",
 			Decided:    "the validity automaton equals encoding/json's state by state; validate-before-decode; number typing by '.', 'e', 'E'; escape tables equal the reference's; encoder arms for all named types.",
 			NotDecided: "round-trip equality of values; number and string values after decoding; float formatting.",
-			Rules:      []*Rule{rJSON1, rJSON2, rJSON3, rJSON4, rJSON5}},
+			Rules:      []*Rule{rJSON1, rJSON2, rJSON3, rJSON4, rJSON5, rJSON6}},
 		{ID: "C19",
 			Decided:    "the wiring of the stdlib modules: adapters do what their function type says; table keys name the Go function/constant they wrap; hand-written wrappers call the function their key names with arguments in order; documentation and tables agree; generated source is in sync.",
 			NotDecided: "the Go functions' results (they are the specification); value-level behaviour of hand-written wrappers (size limits, defaults).",
@@ -248,7 +256,7 @@ func allProperties() []*Property {
 		{ID: "C20",
 			Decided:    "documented precedence = implemented precedence with left-associative climbing; literal conversion is delegated to strconv on the token text; compound printers are self-delimiting and complete; the semicolon-insertion token set; every operator token the parser can produce is compiled to its own operator.",
 			NotDecided: "the re-parse/re-compile equality as a fact about all programs; literal values (delegated to strconv, trusted); comment/whitespace layouts.",
-			Rules:      []*Rule{rPREC1, rLIT1, rPRINT, rSEMI1, rSEM}},
+			Rules:      []*Rule{rPREC1, rLIT1, rPRINT, rSEMI1, rSEMI2, rSCAN1, rSEM}},
 		{ID: "C12",
 			Decided:    "constant re-indexing covers exactly the opcodes through which the VM reads the constant pool, with the operand layout of the tables.",
 			NotDecided: "behavioural equality after de-duplication / gob round trip.",
